@@ -467,6 +467,10 @@ func genKv(r *rand.Rand, tier string) kvInput {
 				}
 			}
 			in.Ops = append(in.Ops, st)
+			if (st.Op.Kind == "SetWithMeta" || st.Op.Kind == "DeleteWithMeta") && st.Nested == nil && r.Intn(3) == 0 {
+				// a feed from the version just written: its CAS is the caller's, not the clock's
+				in.Ops = append(in.Ops, Step{Kind: "dump", Coll: cn, Key: key, Start: pick(r, []string{"current", "current", "stale"}), KeysOnly: r.Intn(4) == 0, Clock: next()})
+			}
 		}
 	}
 	return in
